@@ -39,9 +39,28 @@ func knownFuncsPath() string { return filepath.Join(specDir, "known_funcs.json")
 
 // knownFn: what the reviewed table records about a function, enough to recognise it after a rename.
 type knownFn struct {
-	File  string   `json:"file"`
-	Sig   string   `json:"sig"`
-	Calls []string `json:"calls"`
+	File   string   `json:"file"`
+	Sig    string   `json:"sig"`
+	Params []string `json:"params,omitempty"` // parameter names in order ("" when unnamed)
+	Calls  []string `json:"calls"`
+}
+
+// declParamNames: the parameter names of a declaration, flattened, in order.
+func declParamNames(fd *ast.FuncDecl) []string {
+	var out []string
+	if fd.Type.Params == nil {
+		return nil
+	}
+	for _, f := range fd.Type.Params.List {
+		if len(f.Names) == 0 {
+			out = append(out, "")
+			continue
+		}
+		for _, n := range f.Names {
+			out = append(out, n.Name)
+		}
+	}
+	return out
 }
 
 var knownInfo map[string]knownFn
@@ -176,7 +195,7 @@ func genKnownFuncs(repo string) (map[string]knownFn, error) {
 		rel, _ := filepath.Rel(repo, filepath.Dir(p))
 		for _, d := range f.Decls {
 			if fd, ok := d.(*ast.FuncDecl); ok {
-				keys[funcDeclKey(rel, fd)] = knownFn{File: filepath.Base(p), Sig: declSig(fset, fd), Calls: declCalls(fd)}
+				keys[funcDeclKey(rel, fd)] = knownFn{File: filepath.Base(p), Sig: declSig(fset, fd), Params: declParamNames(fd), Calls: declCalls(fd)}
 			}
 		}
 		return nil
